@@ -16,6 +16,7 @@ pub mod registry_tree;
 pub mod stream_ctl;
 pub mod svs;
 pub mod ws_common;
+pub mod ws_lifecycle;
 pub mod ws_offreader;
 
 pub fn all() -> &'static [Family] {
@@ -34,6 +35,7 @@ pub fn all() -> &'static [Family] {
         v.extend(async_fleet::families());
         v.extend(async_hostile::families());
         v.extend(ws_offreader::families());
+        v.extend(ws_lifecycle::families());
         v
     })
 }
